@@ -78,6 +78,24 @@ def make_overlay(scratch, module, pkgdir, harness_dirs, stubs=(), name="overlay"
     """
     rep = {}
     target = os.path.normpath(os.path.join(REPO, module, pkgdir))
+    # the generic kit, with the package clause of the package under test
+    pkgname = None
+    for f in sorted(glob.glob(os.path.join(target, "*.go"))):
+        if f.endswith("_test.go"):
+            continue
+        for line in open(f, errors="replace"):
+            if line.startswith("package "):
+                pkgname = line.split()[1]
+                break
+        if pkgname:
+            break
+    if not pkgname:
+        raise HarnessError("cannot determine the package name of %s" % target)
+    core = open(os.path.join(VERIF, "harness", "core", "kitcore.go")).read().replace("package PKGNAME", "package " + pkgname, 1)
+    coref = os.path.join(scratch, "kitcore_%s_%s.go" % (pkgname, hashlib.sha1(target.encode()).hexdigest()[:6]))
+    with open(coref, "w") as fh:
+        fh.write(core)
+    rep[os.path.join(target, "zz_verif_kitcore_test.go")] = coref
     for hd in harness_dirs:
         src = os.path.join(VERIF, "harness", hd)
         files = sorted(glob.glob(os.path.join(src, "*.go")))
